@@ -1,9 +1,10 @@
 (* Line driver around the extracted chunk model (C11).  Parsing/printing only.
      G <hexpath> [r1,r2,...]     read_chunks on the bytes of that file with the given short-read schedule
                                  ->  OK <n> <size>:<more>:<crc32> ...
-     R <listed> <mtime_ns> <prev: absent|len> <seed> <end F|X> <size>:<more>,...|-  [U]
+     R <listed> <mtime_ns> <prev: absent|len> <seed> <end F|X> <size>:<more>,...|-  [U] [Z<a>-<b>,...]
                                  relay (U: relay_unfixed) of that chunk sequence, then the writer on the
                                  previous destination  ->  <Ok|Err:size|Err:lost> <absent|len:crc32:(mtime|now)>
+                                 (Z: stream bytes in the half-open ranges [a,b) are zero instead of the fill)
      S <len> [r1,r2,...]         chunk sizes only (size_loop)  ->  OK <n> <size> ...                        *)
 open Chunks
 
@@ -70,11 +71,16 @@ let () =
         let seed = int_of_string seed in
         let specs = if chunks = "-" then [] else List.map (fun c -> match String.split_on_char ':' c with
             | [s; m] -> (int_of_string s, m = "1") | _ -> failwith "chunk spec") (String.split_on_char ',' chunks) in
+        let zeros = List.concat_map (fun t -> if String.length t > 1 && t.[0] = 'Z' then
+            List.map (fun r -> match String.split_on_char '-' r with
+                | [a; b] -> (int_of_string a, int_of_string b) | _ -> failwith "zero range")
+              (String.split_on_char ',' (String.sub t 1 (String.length t - 1))) else []) rest in
+        let byte i = if List.exists (fun (a, b) -> i >= a && i < b) zeros then '\000' else fill seed i in
         let off = ref 0 in
-        let cs = List.map (fun (sz, more) -> let o = !off in off := o + sz; (List.init sz (fun i -> fill seed (o + i)), more)) specs in
+        let cs = List.map (fun (sz, more) -> let o = !off in off := o + sz; (List.init sz (fun i -> byte (o + i)), more)) specs in
         let prevst = if prev = "absent" then None else
           Some { d_content = List.init (int_of_string prev) (fun i -> fill (seed + 1) i); d_mtime = None } in
-        let f = if rest = ["U"] then relay_unfixed else relay in
+        let f = if List.mem "U" rest then relay_unfixed else relay in
         let (cmds, r) = f (n_of_int (int_of_string listed)) (z_of_int (int_of_string mt)) cs in
         let st = write_cmds (WClosed prevst) cmds in
         print_endline (fmt_res r ^ " " ^ fmt_state st)
